@@ -103,4 +103,8 @@ _obligations_c01 = obligations
 
 
 def obligations(ctx, cfg):
-    return _obligations_c01(ctx, cfg) + [PublisherHistory()]
+    # every subscription that exists is attached to its topic (else the fan-out never reaches it)
+    from props.C16 import CreateSubscription
+    cs = CreateSubscription(ctx, abandon=False)
+    cs.id = 'C01.e-create-attaches'
+    return _obligations_c01(ctx, cfg) + [PublisherHistory(), cs]
